@@ -40,12 +40,20 @@ def run_kani_on(ctx, names, limit, nonce_group):
         cmd += ['--harness', h]
     t0 = time.time()
     timed_out = False
+    # own process group: on a time-out only THIS run's cargo-kani / cbmc processes are killed (a machine-wide `pkill cbmc` would take down the
+    # harnesses of any other check running at the same time, which Kani then reports as FAILED without naming a failed check)
+    import signal
+    proc = subprocess.Popen(['bash', '-c', 'ulimit -v 24000000; exec "$@"', 'kani'] + cmd, cwd=os.path.join(VERIF, 'kani'), env=env, stdout=subprocess.PIPE, stderr=subprocess.STDOUT, text=True,
+                            start_new_session=True)
     try:
-        r = subprocess.run(['bash', '-c', 'ulimit -v 24000000; exec "$@"', 'kani'] + cmd, cwd=os.path.join(VERIF, 'kani'), env=env, stdout=subprocess.PIPE, stderr=subprocess.STDOUT, text=True, timeout=limit)
-        out = r.stdout
-    except subprocess.TimeoutExpired as e:
-        out = (e.stdout or b'').decode(errors='replace') if isinstance(e.stdout, bytes) else (e.stdout or '')
-        subprocess.run(['pkill', '-x', 'cbmc'])
+        out, _ = proc.communicate(timeout=limit)
+    except subprocess.TimeoutExpired:
+        try:
+            os.killpg(proc.pid, signal.SIGKILL)
+        except ProcessLookupError:
+            pass
+        out, _ = proc.communicate()
+        out = out or ''
         timed_out = True
         if not nonce_group:
             ctx.inconclusive.append('Kani run exceeded %d s' % limit)
